@@ -107,6 +107,12 @@ def answerCal (cmd : String) (args : List String) : Option String :=
       pure (match dec2x mask base k with
         | .ok s => encodeStr s
         | .error e => showEErr e)
+  | "dec2xp", [b, n, pl] => do
+      let base ← parseNat? b; let k ← parseInt? n; let p ← parseInt? pl
+      let mask ← (Generated.xmask.find? (·.1 == base)).map (·.2)
+      pure (match dec2xP mask base k p with
+        | .ok s => encodeStr s
+        | .error e => showEErr e)
   | "x2dec", [b, s] => do
       let base ← parseNat? b
       let mask ← (Generated.xmask.find? (·.1 == base)).map (·.2)
